@@ -808,6 +808,18 @@ void TasgridWrapper::setHierarchy(){
                 (std::string("grid is set for ") + std::to_string(grid.getNumOutputs()) + " outputs, but "
                  + valsfilename + " specifies " + std::to_string(vals.getStride())).c_str());
     if (not pass_flag) return;
+    if (grid.isFourier()){ // the file uses consecutive (real, imaginary) pairs, the API wants all real parts followed by all imaginary parts
+        size_t num_points = (size_t) grid.getNumPoints(), outs = (size_t) grid.getNumOutputs();
+        std::vector<double> coeff(2 * num_points * outs);
+        for(size_t p=0; p<num_points; p++){
+            for(size_t j=0; j<outs; j++){
+                coeff[p * outs + j] = vals.getStrip((int) p)[2*j];
+                coeff[(num_points + p) * outs + j] = vals.getStrip((int) p)[2*j + 1];
+            }
+        }
+        grid.setHierarchicalCoefficients(coeff);
+        return;
+    }
     grid.setHierarchicalCoefficients(vals.release());
 }
 
